@@ -318,7 +318,10 @@ def run(ctx):
             ctx.ok('EFFECT-PURE', len(seen), {'hash_iteration_sites': hsites, 'discharged_by': 'no year in two columns (%d leap years)' % len(seen)})
 
     # non-blocking acquisition makes an answer depend on what other threads hold at that moment
-    tries = sorted(set((short(f['path']), x) for f in mir['fns'] for c_ in f['calls'] for x in expand(c_) if re.search(r'::(try_lock|try_read|try_write)\b', x)))
+    # (a function that falls back to the blocking acquisition of the same primitive when the attempt fails computes the same answer either way and is not reported)
+    def _blocking(f):
+        return any(re.search(r'::(lock|read|write)$', x.split('<')[0].rstrip(':')) or re.search(r'Mutex::<[^>]*>::lock\b|RwLock::<[^>]*>::(read|write)\b', x) for c_ in f['calls'] for x in expand(c_))
+    tries = sorted(set((short(f['path']), x) for f in mir['fns'] for c_ in f['calls'] for x in expand(c_) if re.search(r'::(try_lock|try_read|try_write)\b', x) and not _blocking(f)))
     if tries:
         ctx.violation('EFFECT-LOCK', 'EFFECT:try-lock:%s' % tries[0][0], '%s acquires shared state with %s: whether it succeeds depends on the other threads (and on poisoning), so the answer of a query '
                       'is no longer a function of its arguments' % (tries[0][0], tries[0][1].split('::')[-1]), {'all': tries})
